@@ -135,3 +135,31 @@ def _contains(i, c, x, node):
 TRUSTED["h5py datasets"] = ("create_dataset(name, data=A) then [name][:] returns an array equal to A in shape and every element "
                             "(int64/float64/bool/bytes dtypes; gzip is lossless); [name][k] its k-th element")
 TRUSTED["h5py attrs"] = "attrs.create(k, v) then attrs[k] returns v (str, Python/NumPy scalars)"
+
+
+@hook("setitem")
+def _attrs_set(i, v, ix, val, node):
+    if isinstance(v, H5Attrs):
+        if not isinstance(ix, str):
+            raise Unsupported("h5 attribute with symbolic name", node)
+        v.items[ix] = val
+        return True
+    return NotImplemented
+
+
+@model("numpy.char.encode", "np.char.encode(a) then np.char.decode(., 'utf-8') is the identity on str arrays (assumed; names are opaque strings)")
+def _char_encode(i, args, kw, node, fr):
+    a = args[0]
+    if not isinstance(a, Arr) or a.elem_sort != Str:
+        raise Unsupported("np.char.encode of non-string array", node)
+    r = Arr(a.shape, a.data, a.dtype, fresh=True)
+    r.encoded = True
+    return r
+
+
+@model("numpy.char.decode", "inverse of np.char.encode (utf-8)")
+def _char_decode(i, args, kw, node, fr):
+    a = args[0]
+    if not isinstance(a, Arr) or a.elem_sort != Str:
+        raise Unsupported("np.char.decode of non-string array", node)
+    return Arr(a.shape, a.data, a.dtype, fresh=True)
